@@ -281,6 +281,16 @@ func (db *DB) AcquireHaltLock(ctx context.Context, lockID int64) (_ *HaltLock, r
 	return &other, nil
 }
 
+// HaltLock returns a copy of the halt lock currently granted on this node, if any.
+func (db *DB) HaltLock() *HaltLock {
+	curr := db.haltLockAndGuard.Load().(*haltLockAndGuard)
+	if curr == nil {
+		return nil
+	}
+	other := *curr.haltLock
+	return &other
+}
+
 // This is a marker error and should not be propagated to the client.
 var errHaltLockAlreadyAcquired = errors.New("litefs: halt lock already acquired")
 
